@@ -600,6 +600,9 @@ class CallMixin:
             yield "ok", NONE, st
         elif name in ("popleft", "pop", "popitem"):
             t = ("popped", reg, st.uid())
+            peek = st.heap.pop((("peek",), reg), None) if name == "popleft" and not args else None
+            if peek is not None:
+                t = peek           # the head that was looked at (q[0]) is the one that leaves now
             if name == "pop" and args:
                 key = args[0]
                 if len(args) < 2 and (reg, key) not in st.hits and not (isinstance(key, tuple) and key[0] == "keyof"):
